@@ -12,6 +12,7 @@ import EinoV.Proofs.C01ChainKeys
 import EinoV.Spec.Superstep
 import EinoV.Gen.FactsC01
 import EinoV.Expected.C01
+import EinoV.Proofs.TransPregel
 
 namespace EinoV.C01
 open EinoV.Engine EinoV.Gen
@@ -227,5 +228,58 @@ example : (match exFail.sem (.map []) with | .error e => some (e.cls, e.path) | 
     "multiple previous nodes"); in the lowered graph only the first member would be connected -/
 example : stagesOK false [.parallel [("p", tagF "b"), ("q", tagF "c")], .parallel [("r", tagF "b"), ("s", tagF "c")]] = false := by
   decide
+
+/-! ### The source itself: compose/pregel.go translated (Gen/TransC01.lean) refines the channel model
+
+`tools/factgen/gotrans.go` re-translates `pregelChannel.{reportValues, get, reportSkip,
+reportDependencies}` from /repo's working tree on every run; the theorems below say the translated
+text computes what the any-predecessor channel of the engine model (`Chan.* false`) computes, so
+`pregel_refines_superstep` and the theorems on top of it speak about the channel code as it is now. -/
+section Translated
+open EinoV.GoSem EinoV.TransPregel EinoV.Gen.TransC01
+variable {V : Type} [Inhabited V]
+
+theorem translated_source_is_current : FactsC01.pregelChannelTranslated = true := by decide
+
+/-- `pregelChannelBuilder`'s channel is the model's initial channel -/
+theorem translated_init (cp dp : List Key) : Chan.init (V := V) false cp dp = toChan { Values := [] } :=
+  init_is_empty cp dp
+
+/-- `pregelChannel.reportValues`: every value sent is stored under its sender -/
+theorem translated_reportValues_refines (ext : Ext V) (ch : pregelChannel V) (ins : GoMap V) :
+    toChan (pregelChannel_reportValues ext ch ins).1 = (toChan ch).reportValues false ins ∧
+    (pregelChannel_reportValues ext ch ins).2 = none :=
+  reportValues_refines ext ch ins
+
+/-- `pregelChannel.get`: not ready when nothing was sent; otherwise the single value or the merge,
+    and the channel is emptied (also when the merge fails) -/
+theorem translated_get_refines (ops : ValOps V) (es : V) (ch : pregelChannel V) (isStream : Bool) :
+    toChan (pregelChannel_get (extOf ops es) ch isStream).1 = ((toChan ch).get ops false).1 ∧
+    getResult (pregelChannel_get (extOf ops es) ch isStream).2 = ((toChan ch).get ops false).2 :=
+  get_refines ops es ch isStream
+
+/-- `pregelChannel.reportSkip` / `reportDependencies` do nothing (skips are not propagated in
+    any-predecessor mode) -/
+theorem translated_skip_and_deps_are_noops (ext : Ext V) (ch : pregelChannel V) (keys : List String) :
+    (toChan (pregelChannel_reportSkip ext ch keys).1, (pregelChannel_reportSkip ext ch keys).2)
+      = (toChan ch).reportSkip false keys ∧
+    toChan (pregelChannel_reportDependencies ext ch keys) = (toChan ch).reportDeps false keys :=
+  ⟨reportSkip_refines ext ch keys, reportDependencies_refines ext ch keys⟩
+
+/-- the clause "a node that was sent nothing does not run", read off the translated `get` -/
+theorem translated_get_not_ready_iff_empty (ops : ValOps V) (es : V) (ch : pregelChannel V) (isStream : Bool) :
+    getResult (pregelChannel_get (extOf ops es) ch isStream).2 = .notReady ↔ ch.Values = [] := by
+  rw [(get_refines ops es ch isStream).2]
+  unfold Chan.get
+  simp only [Bool.false_eq_true, if_false]
+  have hva : (toChan ch).values = ch.Values := rfl
+  rw [hva]
+  rcases hv : ch.Values with _ | ⟨a, _ | ⟨b, rest⟩⟩
+  · simp
+  · simp [collect]
+  · simp only [List.isEmpty_cons, Bool.false_eq_true, if_false, List.map_cons, collect]
+    cases ops.merge (a.snd :: b.snd :: List.map (fun x => x.snd) rest) <;> simp
+
+end Translated
 
 end EinoV.C01
